@@ -1,1 +1,65 @@
-fn main(){ println!("hi"); }
+#![allow(dead_code)]
+mod engine;
+mod props;
+mod supply_ref;
+
+use engine::Tier;
+
+fn usage() -> ! {
+    eprintln!("usage: rtaverif check <ID> [--tier quick|thorough] [--seed N] | replay <ID> <file> | list");
+    std::process::exit(2)
+}
+
+fn main() {
+    engine::install_panic_hook();
+    let args: Vec<String> = std::env::args().skip(1).collect();
+    if args.is_empty() {
+        usage();
+    }
+    match args[0].as_str() {
+        "list" => {
+            for id in props::all_ids() {
+                println!("{}", id);
+            }
+        }
+        "check" => {
+            let id = args.get(1).unwrap_or_else(|| usage());
+            let mut tier = Tier::Quick;
+            let mut seed = 1u64;
+            let mut i = 2;
+            while i < args.len() {
+                match args[i].as_str() {
+                    "--tier" => {
+                        tier = match args.get(i + 1).map(|s| s.as_str()) {
+                            Some("quick") => Tier::Quick,
+                            Some("thorough") => Tier::Thorough,
+                            _ => usage(),
+                        };
+                        i += 2;
+                    }
+                    "--seed" => {
+                        seed = args.get(i + 1).and_then(|s| s.parse().ok()).unwrap_or_else(|| usage());
+                        i += 2;
+                    }
+                    _ => usage(),
+                }
+            }
+            let p = props::property(id).unwrap_or_else(|| {
+                eprintln!("unknown property {}", id);
+                std::process::exit(2)
+            });
+            engine::start_watchdog(tier.pick(1500, 6 * 3600));
+            std::process::exit(engine::run_property(&p, tier, seed));
+        }
+        "replay" => {
+            let id = args.get(1).unwrap_or_else(|| usage());
+            let file = args.get(2).unwrap_or_else(|| usage());
+            let p = props::property(id).unwrap_or_else(|| {
+                eprintln!("unknown property {}", id);
+                std::process::exit(2)
+            });
+            std::process::exit(engine::run_replay(&p, file));
+        }
+        _ => usage(),
+    }
+}
